@@ -118,9 +118,27 @@ def run_walk(tier, funcs, index, enums, res, text):
     r["bound"] = "process_dir over the walkdir model, every (mindepth, maxdepth) in 0..4 x -depth x -P/-H/-L"
     r["inputs_covered"] = r.pop("checks")
     res["runs"].append(r)
-    res["target"] += ("; process_dir + WalkEntry::from_walkdir + WalkError's conversions over a port of walkdir 2.5's iterator (min/max depth, contents_first, follow_links, errors for "
+    res["target"] = res.get("target", "").rstrip("; ") + ("; " if res.get("target") else "") + ("process_dir + WalkEntry::from_walkdir + WalkError's conversions over a port of walkdir 2.5's iterator (min/max depth, contents_first, follow_links, errors for "
                       "dangling / looping links and unreadable directories, skip_current_dir) on a 11-entry tree")
-    res["bounds"] += ("; walk: tree %s, -mindepth and -maxdepth 0..4 (incl. min > max), -depth on/off, -P/-H/-L; expression -print" % [(p, k) for p, _d, k in c02_walk.TREE])
+    res["bounds"] = res.get("bounds", "").rstrip("; ") + ("; " if res.get("bounds") else "") + ("walk: tree %s, -mindepth and -maxdepth 0..4 (incl. min > max), -depth on/off, -P/-H/-L; expression -print" % [(p, k) for p, _d, k in c02_walk.TREE])
+
+
+def run_prune(tier, funcs, index, enums, res, text):
+    import c02_walk
+    res.setdefault("target", ""); res.setdefault("bounds", "")
+    r = c02_walk.explore_prune(funcs, index, enums, text)
+    res["functions_executed"].update(r.pop("functions_executed"))
+    for v in r.pop("violations"):
+        res["violations"].append({"key": "prune | " + v["what"].split(",")[0][:50], "summary": v["what"], "replayer": "prune_dirs", "config": v.get("config"), "what": v["what"]})
+    for k, c in r.pop("unsupported").items():
+        res["unsupported"][k] = res["unsupported"].get(k, 0) + c
+    r["bound"] = "-name X -prune -o -print: every subset of 5 selectable entries x {no -depth, -depth before, -depth after}"
+    r["inputs_covered"] = r.pop("checks")
+    res["runs"].append(r)
+    res["target"] = (res["target"] + "; " if res["target"] else "") + ("the real parser on '-name X -prune -o -print' (with -depth absent / before / after), process_dir, PruneMatcher::matches, "
+                                                                      "WalkEntry::file_type + FileType::from over the port of walkdir's iterator incl. skip_current_dir")
+    res["bounds"] = (res["bounds"] + "; " if res["bounds"] else "") + ("prune: X selects any subset of the 4 directories and the link-to-a-directory of the 11-entry tree (symbolic), three placements of "
+                                                                      "-depth; printed entries, their order and the status are compared with the reference")
 
 
 def run_exec(prop, tier, funcs, index, enums, res):
@@ -296,6 +314,10 @@ def main():
         run_startpoints(tier, funcs, index, enums, res)
         if prop == "C02":
             run_walk(tier, funcs, index, enums, res, text)
+    elif prop == "C03":
+        res["target"], res["bounds"] = "", ""
+        run_walk(tier, funcs, index, enums, res, text)
+        run_prune(tier, funcs, index, enums, res, text)
     elif prop in ("C08", "C09"):
         run_exec(prop, tier, funcs, index, enums, res)
     elif prop == "C05":
